@@ -4,6 +4,9 @@ mkdir -p /verif/mutants
 cd /repo
 for c in $(git log --format=%h --grep='^fix:' ); do
   subj=$(git log -1 --format=%s $c | sed 's/^fix: //; s/[^A-Za-z0-9]\+/_/g' | cut -c1-50)
-  git diff $c $c^ > /verif/mutants/R_${c}_${subj}.diff
+  f=/verif/mutants/R_${c}_${subj}.diff
+  # keep a hand-ported version (one that applies to HEAD although the raw reverse diff no longer does)
+  if [ -f "$f" ] && git apply --check "$f" 2>/dev/null; then continue; fi
+  git diff $c $c^ > "$f"
 done
 ls /verif/mutants
